@@ -9,13 +9,18 @@ Direct oracles on the implementation's output, independent of the model:
            hand-written RFC 8259 recogniser; numbers compared by IEEE bit pattern, strings by
            code points, keys strictly increasing, hidden fields absent
   Python : ast.literal_eval                TOML : tomllib            YAML : PyYAML safe_load
+
+Section "YAML / TOML writers" (work package H): the YAML document/stream emitter and the TOML table writer are
+modelled too (`RsjModel/Yaml.lean`, `RsjModel/Toml.lean`, model ops `yaml` / `toml`; implementation sub-commands
+`json yamldoc|yamlstream|toml|toml0`): byte-for-byte comparison over block scalars, every flag combination, tables /
+arrays of tables / inline values, the error outcomes (null, non-object), plus the same foreign decoders.
 """
 import ast
 import json
 import math
 import re
 import struct
-from decimal import Decimal
+from decimal import Decimal, ROUND_HALF_UP
 
 import vlib
 
@@ -46,10 +51,21 @@ def from_bits(b):
 
 
 def rust_display(x):
-    """text that `format!("{}", f64)` prints: shortest round-trip digits, positional, no `.0`"""
+    """text that `format!("{}", f64)` prints: shortest round-trip digits, positional, no `.0`.
+    Python's repr has the same number of digits and also picks the candidate closest to the exact value; they differ
+    only when two candidates are equally close (e.g. 202558290741772.125 -> repr ...72.12, Rust ...72.13): Rust's
+    digit generation rounds such a tie away from zero, repr to even."""
     if x == 0:
         return "-0" if math.copysign(1.0, x) < 0 else "0"
-    s = format(Decimal(repr(x)), "f")
+    d = Decimal(repr(x))
+    exact = Decimal(x)
+    if d != exact:
+        # same number of significant digits, ties away from zero
+        exp = d.as_tuple().exponent
+        cand = exact.quantize(Decimal(1).scaleb(exp), rounding=ROUND_HALF_UP)
+        if cand != d and float(cand) == x:
+            d = cand
+    s = format(d, "f")
     if "." in s:
         s = s.rstrip("0").rstrip(".")
     return s
@@ -596,6 +612,16 @@ def run(rep):
         % (getattr(yaml, "__version__", "absent")),
         "TOML decoder = tomllib (arbitrary-size integers); top-level objects without null",
         "parse errors compared by kind (line/column not modelled)",
+        "YAML / TOML writers section: implementation `json yamldoc|yamlstream|toml|toml0` against the models "
+        "RsjModel/Yaml.lean, RsjModel/Toml.lean (model ops `yaml`, `toml`), byte for byte, all flag combinations and "
+        "defaults, indents '', ' ', '  ', '    ', tab; error outcomes (null anywhere -> 'cannot manifest null in TOML', "
+        "non-object / non-array arguments) checked against the value, independent of the model",
+        "block scalars (strings ending in a newline; outside the property's quantifier): always compared with the model; "
+        "decoded with PyYAML only in the shapes YAML reads back (printable content, last line not empty, first non-empty "
+        "line not starting with a space) and with a line break appended to the document (clip chomping drops the final "
+        "newline of a block scalar that ends the text); a failure there is recorded as a broken tie, not as a violation",
+        "TOML numbers: integral doubles >= 2^63 are written as integer literals, which tomllib reads (arbitrary precision) "
+        "but parsers with 64-bit integers must reject (TOML v1.0.0, Integer); reported, not judged here",
     ]
     regenerate_table(rep)
     vlib.prelude(rep, cli=True)
@@ -712,6 +738,9 @@ def run(rep):
             rep.violation(violation_key(kind, c, bad), "%s output: %s" % (kind, bad), replay)
     vlib.compare(rep, cases, io, mo, label="manifest")
 
+    # ---------------- YAML / TOML writers against their models (work package H)
+    yaml_toml_section(rep, rng, quick)
+
     # ---------------- the CLI's own composition: default output, -y stream items, -m files
     cli_batch(rep, rng, 40 if quick else 600)
 
@@ -796,6 +825,290 @@ def run(rep):
             rep.violation("parseJson-roundtrip:" + c["key"], "std.parseJson of the manifested text is not the value", replay)
         if ca != cb:
             rep.disagreement(c["key"], "parse: implementation and model differ", {"case": {"key": c["key"]}, "impl": a[:1500], "model": b[:1500]})
+
+
+# ----------------------------------------------------------------------------- YAML / TOML writers (work package H)
+H_STR_PIECES = ["a", "b", "Z", "0", "1", " ", "  ", "\n", "\n\n", "\t", "-", "- ", "#", " #", ":", ": ", "|", ">", "'", '"', "\\",
+                "é", "あ", "\U0001f600", "x y", "? ", "%", "---", "...", "&", "*", "!", "[", "]", "{", "}", ",", "@", "`",
+                "null", "true", "no", "~", "1e3", "0x1F", "\r", "\x00", "\x1f", "\x7f", "\x85", "\xa0", "\u2028", "\ufeff",
+                "\ufffe", "=", ".", "_"]
+H_WORDS = ["", "null", "Null", "NULL", "~", "true", "True", "false", "yes", "No", "on", "off", "y", "n", ".inf", "-.inf", ".nan",
+           "1", "-1", "0", "-0", "1.5", "1e3", "0x1F", "0o17", "1_000", "2020-01-01", "12:30", "-", "---", "...", "- a", "a: b",
+           "a #b", "#", "[]", "{}", "[a]", "{a}", "|", ">", "!x", "&a", "*a", "?", "? a", "@a", "`a", "%a", "'", '"', "''", " a",
+           "a ", "  a", "\ta", "a\t", "a\n", "a\n\n", "\n", "\n\n", "\na", "\na\n", " a\n", "  a\n b\n", "a\n b\n", "a\n\n b\n",
+           "a\nb", "a\n  \n", " \n", "a \n", "a\t\n", "\ta\n", "é\n", "a\\n", "a\\", "\\", "a\"b", "a'b", "key", "a.b", "a-b",
+           "a_b", "a b", "a=b", "a.b.c", "[x]", "[[x]]", "x]", "\x00", "\x1f", "\x7f", "\x80", "\x9f", "\u2028\n", "\ufeffa",
+           "\U0010ffff", "\ud7ff\ue000"]
+H_TOML_KEYS = ["a", "b", "c", "A", "Z9", "0", "1", "-", "_", "a-b", "a_b", "a.b", "a b", "", " ", "é", "a\"b", "a\\b", "a\nb", "\t",
+               "\x00", "\x7f", "[a]", "a=b", "#", "'", "\U0001f600", "true", "1e3", "1.5", "k" * 40]
+
+
+def gen_h_str(rng, keyish=False):
+    r = rng.random()
+    if r < 0.3:
+        return rng.choice(H_WORDS)
+    if keyish and r < 0.55:
+        return rng.choice(YAML_KEYS)
+    if r < 0.6:
+        return gen_str(rng, keyish)
+    s = "".join(rng.choice(H_STR_PIECES) for _ in range(rng.choice([1, 2, 2, 3, 4, 6])))
+    return s + ("\n" if rng.random() < 0.3 else "")
+
+
+def gen_h_val(rng, depth, null_p=0.08):
+    """values for the YAML writer: empty containers at every position, strings of every block-scalar shape"""
+    r = rng.random()
+    if depth <= 0 or r < 0.4:
+        k = rng.random()
+        if k < null_p:
+            return None
+        if k < 0.2:
+            return rng.random() < 0.5
+        if k < 0.4:
+            return gen_num(rng)
+        if k < 0.5:
+            return rng.choice([[], Obj([])])
+        return gen_h_str(rng)
+    n = rng.choice([0, 1, 1, 2, 2, 3, 4])
+    if r < 0.7:
+        return [gen_h_val(rng, depth - 1, null_p) for _ in range(n)]
+    keys = []
+    while len(keys) < n:
+        k = gen_h_str(rng, True)
+        if k not in keys:
+            keys.append(k)
+    return Obj([(rng.random() < 0.1, k, gen_h_val(rng, depth - 1, null_p)) for k in keys])
+
+
+def gen_toml_key(rng, used):
+    while True:
+        r = rng.random()
+        k = rng.choice(H_TOML_KEYS) if r < 0.7 else (gen_h_str(rng, True) if r < 0.85 else gen_str(rng, True))
+        if k not in used:
+            used.append(k)
+            return k
+
+
+def gen_toml_inline(rng, depth, null_p):
+    """a value in inline position (scalars, inline arrays / tables)"""
+    r = rng.random()
+    if depth <= 0 or r < 0.55:
+        k = rng.random()
+        if k < null_p:
+            return None
+        if k < 0.25:
+            return rng.random() < 0.5
+        if k < 0.55:
+            return gen_num(rng)
+        return gen_h_str(rng)
+    n = rng.choice([0, 1, 2, 3])
+    if r < 0.8:
+        return [gen_toml_inline(rng, depth - 1, null_p) for _ in range(n)]
+    used = []
+    return Obj([(rng.random() < 0.1, gen_toml_key(rng, used), gen_toml_inline(rng, depth - 1, null_p)) for _ in range(n)])
+
+
+def gen_toml_table(rng, depth, null_p=0.0):
+    """an object whose fields are plain values, sub-tables, arrays of tables (also empty tables, arrays mixing tables
+    and scalars, arrays of empty tables, empty arrays, nested arrays)"""
+    n = rng.choice([0, 1, 2, 3, 4, 5]) if depth > 0 else rng.choice([0, 1, 2])
+    used = []
+    fields = []
+    for _ in range(n):
+        k = gen_toml_key(rng, used)
+        r = rng.random()
+        if depth > 0 and r < 0.25:
+            v = gen_toml_table(rng, depth - 1, null_p)
+        elif depth > 0 and r < 0.45:
+            v = [gen_toml_table(rng, depth - 1, null_p) for _ in range(rng.choice([1, 1, 2, 3]))]
+            if rng.random() < 0.25:   # arrays mixing tables and other values: inline
+                v.insert(rng.randrange(len(v) + 1), gen_toml_inline(rng, 1, null_p))
+        elif r < 0.5:
+            v = rng.choice([[], Obj([]), [Obj([])], [[]], [Obj([]), Obj([])], [[Obj([])]]])
+        else:
+            v = gen_toml_inline(rng, 2, null_p)
+        fields.append((rng.random() < 0.08, k, v))
+    return Obj(fields)
+
+
+def has_null(v):
+    if v is None:
+        return True
+    if isinstance(v, list):
+        return any(has_null(x) for x in v)
+    if isinstance(v, Obj):
+        return any(has_null(x) for h, k, x in v.fields if not h)
+    return False
+
+
+def block_shape_ok(s):
+    """a string ending in a newline whose `|` block scalar a YAML parser reads back (when the document goes on with a
+    line break): printable content without other line-break characters, a last line that is not empty, and a first
+    non-empty line that does not start with a space (the indentation of the scalar is detected from that line)"""
+    body = s[:-1]
+    for c in body:
+        o = ord(c)
+        if c != "\n" and c != "\t" and (o < 0x20 or 0x7F <= o <= 0x9F or c in "\u2028\u2029\ufeff\ufffe\uffff"):
+            return False
+    ls = body.split("\n")
+    if ls[-1] == "":
+        return False
+    first = [l for l in ls if l != ""][0]
+    return not first.startswith(" ")
+
+
+def yaml_judgeable(v):
+    """None if PyYAML cannot judge the document, else 'plain' / 'block' (some string is emitted as a block scalar)"""
+    kind = "plain"
+
+    def go(x, is_key=False):
+        nonlocal kind
+        if isinstance(x, str):
+            if any(c in x for c in "\ufffe\uffff\u2028\u2029"):
+                return False
+            if x.endswith("\n") and not is_key:
+                if not block_shape_ok(x):
+                    return False
+                kind = "block"
+            return True
+        if isinstance(x, list):
+            return all(go(y) for y in x)
+        if isinstance(x, Obj):
+            return all(go(k, True) and go(y) for h, k, y in x.fields if not h)
+        return True
+
+    return kind if go(v) else None
+
+
+H_YAML_FIXED = [
+    "a\n", "a\nb\n", "\n", "a\n\n", " a\n", "a\n b\n", [["a\n"]], ["a\n", "b"], Obj([(False, "k", "a\nb\n"), (False, "l", 1.0)]),
+    Obj([(False, "k", ["a\n", Obj([(False, "x", "b\n"), (False, "y", ["c\n"])])])]),
+    [], Obj([]), [[]], [Obj([])], Obj([(False, "a", [])]), Obj([(False, "a", Obj([]))]), [[[]], [Obj([])]],
+    Obj([(False, "a", [[], Obj([]), [[]], [Obj([(False, "b", [])])]]), (False, "b", Obj([(False, "c", Obj([(False, "d", [1.0])]))]))]),
+    [Obj([(False, "a", 1.0), (False, "b", [Obj([(False, "c", 2.0), (False, "d", [3.0, [4.0]])])])]), [[1.0, 2.0], [3.0]]],
+    Obj([(False, "on", "on"), (False, "1e3", "1e3"), (False, "a b", "~"), (True, "hid", "x"), (False, "-", [None, True, False, -0.0])]),
+    [None, [None], Obj([(False, "n", None)])], "null", "", " ", "- a", "a: b", "é", "\x00\x1f\x7f\x85\u2028",
+]
+H_TOML_FIXED = [
+    Obj([]), Obj([(False, "a", 1.0)]), Obj([(False, "a", Obj([]))]), Obj([(False, "a", [Obj([])])]), Obj([(False, "a", [])]),
+    Obj([(False, "a", Obj([(False, "b", Obj([(False, "c", Obj([]))]))]))]),
+    Obj([(False, "a", Obj([(False, "b", Obj([(False, "c", 1.0)])), (False, "z", "s")])), (False, "b", 2.0), (False, "c", [Obj([(False, "x", 1.0)]), Obj([])])]),
+    Obj([(False, "a", [Obj([(False, "b", [Obj([(False, "c", [Obj([(False, "d", 1.0)])])])])]), Obj([(False, "b", [Obj([])])])])]),
+    Obj([(False, "m", [Obj([(False, "x", 1.0)]), 2.0]), (False, "n", [1.0, Obj([(False, "x", [1.0, [2.0, Obj([(False, "y", [])])]])])])]),
+    Obj([(False, "a.b", Obj([(False, "c d", Obj([(False, "", [Obj([(False, "\"", "\\")])])]))])), (False, "é", Obj([(False, "k", True)]))]),
+    Obj([(False, "arr", [[1.0, 2.0], ["a", ["b", []]], [Obj([]), Obj([(False, "k", [])])]]), (False, "s", "a\nb\n"), (False, "t", Obj([(False, "u", [[Obj([])]])]))]),
+    Obj([(False, "a", None)]), Obj([(False, "a", Obj([(False, "b", [1.0, None])]))]), Obj([(False, "a", [Obj([(False, "b", None)])])]),
+    Obj([(True, "h", None), (False, "a", 1.0)]), Obj([(False, "a", [Obj([(True, "h", None)])]), (True, "t", Obj([]))]),
+    [], None, 1.0, "s", [Obj([])], True,
+]
+
+
+def h_line(impl_line):
+    """model request for an implementation request of this section (`json yamldoc ..` -> `yaml yamldoc ..`)"""
+    w = impl_line.split(" ")
+    return " ".join([("toml" if w[1].startswith("toml") else "yaml")] + w[1:])
+
+
+def yaml_toml_section(rep, rng, quick):
+    n = 700 if quick else 8000
+    cases = []
+
+    def add(line, v, kind, flags=None):
+        cases.append({"key": line, "v": v, "kind": kind, "flags": flags})
+
+    # --- YAML documents: every flag combination and the defaults
+    yvals = list(H_YAML_FIXED) + [gen_h_val(rng, rng.choice([1, 2, 3, 3, 4])) for _ in range(n)]
+    for i, v in enumerate(yvals):
+        fls = ["00", "01", "10", "11", "-"] if i < len(H_YAML_FIXED) else [rng.choice(["00", "01", "10", "11", "-"])]
+        for fl in fls:
+            add("json yamldoc %s %s" % (fl, wire(v)), v, "yamldoc", fl)
+    for k in YAML_KEYS + H_WORDS:
+        add("json yamldoc 00 " + wire(Obj([(False, k, k)])), Obj([(False, k, k)]), "yamldoc", "00")
+        v = [Obj([(False, k, [k, Obj([(False, k, Obj([(False, k, [[k]])]))])])])]
+        add("json yamldoc %s %s" % (rng.choice(["00", "10"]), wire(v)), v, "yamldoc", "00")
+    # --- YAML streams
+    svals = [[], [[]], ["a\n", "b\n"], [None], 1.0, Obj([]), ["x", ["y"], Obj([(False, "k", "v\n")])]]
+    svals += [[gen_h_val(rng, rng.choice([0, 1, 2, 3])) for _ in range(rng.choice([1, 1, 2, 3, 4]))] for _ in range(n // 4)]
+    for i, v in enumerate(svals):
+        fls = (["000", "010", "111", "-"] if i < 7 else
+               [rng.choice(["-"] + ["%d%d%d" % (a, b, c) for a in (0, 1) for b in (0, 1) for c in (0, 1)])])
+        for fl in fls:
+            add("json yamlstream %s %s" % (fl, wire(v)), v, "yamlstream", fl)
+    # --- TOML: tables; a share with nulls (error outcome) and non-objects
+    tvals = list(H_TOML_FIXED)
+    for _ in range(n):
+        r = rng.random()
+        if r < 0.85:
+            tvals.append(gen_toml_table(rng, rng.choice([1, 2, 2, 3])))
+        elif r < 0.97:
+            tvals.append(gen_toml_table(rng, rng.choice([1, 2, 3]), null_p=0.1))
+        else:
+            tvals.append(gen_h_val(rng, 1))
+    for i, v in enumerate(tvals):
+        inds = ["", "  ", "\t", "0"] if i < len(H_TOML_FIXED) else [rng.choice(["", " ", "  ", "    ", "\t", "  ", "0"])]
+        for ind in inds:
+            if ind == "0":
+                add("json toml0 " + wire(v), v, "toml", "  ")
+            else:
+                add("json toml %s %s" % (vlib.hx(ind), wire(v)), v, "toml", ind)
+
+    ilines = [c["key"] for c in cases]
+    mlines = [h_line(l) for l in ilines]
+    io = vlib.impl(ilines)
+    mo = vlib.model(mlines)
+    for c, il, ml, a, b in zip(cases, ilines, mlines, io, mo):
+        v, kind = c["v"], c["kind"]
+        nt = nontrivial(v) or (isinstance(v, str) and "\n" in v)
+        rep.count(il, nt, sample={"request": il[:160], "impl": a[:160]} if nt and rng.random() < 0.003 else None)
+        rep.bump("H-" + kind)
+        replay = {"op": il, "mop": ml, "impl": a[:1500], "model": b[:1500]}
+        if a != b:
+            rep.disagreement(il, "%s: implementation and model differ" % kind, replay)
+        w = a.split(" ")
+        # ---- direct oracles on the implementation's answer
+        if kind == "toml":
+            want = "err notobject" if not isinstance(v, Obj) else ("err null" if has_null(v) else "ok")
+            rep.bump("H-toml-" + want.replace(" ", "-"))
+            if want != "ok":
+                if a != want:
+                    rep.disagreement(il, "TOML writer outcome %r, expected %r" % (a[:60], want), replay)
+                continue
+            if w[0] != "ok":
+                rep.violation("toml-fails:" + il, "std.manifestTomlEx failed on a null-free object: " + a[:100], replay)
+                continue
+            text = vlib.unhx(w[1]).decode("utf-8")
+            bad = oracle_toml(text, expected(v)) if tomllib is not None else None
+            if bad:
+                rep.violation("toml:" + il, "toml output: " + bad, replay)
+            continue
+        if kind == "yamlstream" and not isinstance(v, list):
+            if a != "err notarray":
+                rep.disagreement(il, "YAML stream of a non-array: %r" % a[:60], replay)
+            continue
+        if w[0] != "ok":
+            rep.violation("yaml-fails:" + il, "YAML manifestation of a JSON-representable value failed: " + a[:100], replay)
+            continue
+        if yaml is None:
+            continue
+        text = vlib.unhx(w[1]).decode("utf-8")
+        j = yaml_judgeable(v)
+        if j is None:
+            rep.bump("H-yaml-differential-only")
+            continue
+        if kind == "yamlstream":
+            if not v:
+                continue          # one empty document, as upstream (see assumptions)
+            bad = oracle_yaml(text, expected(v), stream=True)
+        else:
+            # a block scalar at the very end of the text keeps its final line break only if the text goes on
+            # (as it does in a stream, in a file written by the CLI with its trailing newline)
+            bad = oracle_yaml(text + "\n" if j == "block" else text, expected(v))
+        rep.bump("H-yaml-oracle-" + j)
+        if bad and j == "plain":
+            rep.violation(violation_key("yaml", {"key": il, "v": v}, bad), "yaml output: " + bad, replay)
+        elif bad:
+            # strings ending in a newline are outside the property's quantifier: recorded as a broken tie
+            rep.disagreement(il, "block scalar not read back by PyYAML: " + bad, replay)
 
 
 def run_cli(args, src):
@@ -930,7 +1243,7 @@ def replay(r):
         line = ("json manifest " + k) if "fmt" in rp["case"] else ("json " + k)
     vlib.build_harness()
     a = vlib.impl([line])[0]
-    b = vlib.model([line])[0]
+    b = vlib.model([rp.get("mop", line)])[0]
     print("request:", line[:2000])
     print("impl   :", a[:2000])
     print("model  :", b[:2000])
@@ -941,7 +1254,7 @@ def replay(r):
         except Exception:
             pass
         return 1 if canon_parse_answer(a) != canon_parse_answer(b) else 0
-    if a.startswith("ok ") and w[1] == "manifest":
+    if a.startswith("ok ") and w[1] in ("manifest", "yamldoc", "yamlstream", "toml", "toml0"):
         try:
             print("text   :", repr(vlib.unhx(a.split(" ")[1]).decode("utf-8"))[:1200])
         except Exception:
